@@ -84,3 +84,27 @@ claim("C15",
       _READER_NOTE,
       "Coq codec lemmas for both byte orders + per-segment byte-order transcoding differential run + model correspondence",
       "DESIGN.md section 7, C15")
+claim("C17",
+      "Theorems over the reals (Props/C17.v; only the standard Reals axioms): the transcribed formulas of RtdScaling, "
+      "ThermistorScaling, StrainScaling, PolynomialScaling, TableScaling and _adjust_for_lead_resistance "
+      "(Model/SensorsR.v) invert their laws. RTD, T >= 0: for R0 > 0, A > 0, B < 0, A + 2BT > 0, I <> 0 and every "
+      "2/3/4-wire lead resistance, scale(V(Callendar-Van Dusen R(T))) = T. RTD, T < 0: the quartic branch is taken, T is "
+      "a root of the quartic the code builds, the quartic is strictly increasing on (-inf, 0] with positive derivative "
+      "(C < 0), so every negative real root equals T; with the polyroots oracle assumed to list the negative real roots "
+      "once each, scale = T. Thermistor: scale(V(R(T))) = T - offset for current excitation and for the voltage divider, "
+      "R(T) the closed-form Steinhart-Hart inverse (b, c, T > 0), also for any positive resistance obeying the law. "
+      "Strain: for each of the seven bridge configurations, with Vo derived from the Wheatstone equation and the "
+      "comment's resistor assignments, scale(init + Vo(e / gain)) = e under the stated non-zero denominators, including "
+      "lead-wire desensitisation. Polynomial = sum c_i x^i; table = the unique clamped piecewise-linear interpolant "
+      "through the (scaled, pre-scaled) points, reversed when decreasing, ValueError exactly on non-monotonic tables. "
+      "Tie: per generated sample (all wirings, both excitations, seven bridges, with/without lead, gain, initial voltage, "
+      "negative temperatures) a kernel-checked goal |model(params, v) - impl| <= 1e-9 relative (interval/lra on the exact "
+      "float literals) and a goal that the Python forward law is the Coq law; direct oracle |impl - x| <= 1e-6 relative; "
+      "one pass through TdmsWriter/TdmsFile with NI_Scale properties.",
+      "Float rounding of the implementation is bounded per sample, not by a theorem. numpy polyroots is an oracle "
+      "(section variable; assumption negative_roots_ok stated in the theorem, validated per sample by bracketing goals). "
+      "Law conventions follow NI and are written in the model: no lead term for a 2-wire voltage-excited thermistor "
+      "(the test-suite pins this), gain adjustment multiplies the strain reading, one lead in series with each active "
+      "arm for half/quarter bridges. Trusted: Coq kernel, Reals axioms, the Interval tactic's reflection (checked at Qed).",
+      "Coq Reals proofs (field/nra/IVT) + per-sample interval goals tying model and implementation",
+      "DESIGN.md section 7, C17")
